@@ -18,6 +18,8 @@ type Opts struct {
 	Prop      string
 	Only      map[int]bool // scenario indices to run (replay / reproduction); nil = all
 	Mode      string
+	ShardK    int
+	ShardN    int
 }
 
 func Parse() *Opts {
@@ -30,7 +32,15 @@ func Parse() *Opts {
 	flag.StringVar(&o.Prop, "prop", "", "property id the run is for")
 	flag.StringVar(&only, "only", "", "comma separated scenario indices (0-based, in file order after de-duplication)")
 	flag.StringVar(&o.Mode, "mode", "", "driver specific sub-mode")
+	shard := ""
+	flag.StringVar(&shard, "shard", "", "k/n: run only scenarios with index %% n == k; trace ids are offset per shard")
 	flag.Parse()
+	o.ShardN = 1
+	if shard != "" {
+		if _, err := fmt.Sscanf(shard, "%d/%d", &o.ShardK, &o.ShardN); err != nil || o.ShardN < 1 {
+			Fatal("bad -shard %q", shard)
+		}
+	}
 	if only != "" {
 		o.Only = map[int]bool{}
 		for _, p := range strings.Split(only, ",") {
@@ -47,7 +57,15 @@ func Parse() *Opts {
 	return o
 }
 
-func (o *Opts) Want(i int) bool { return o.Only == nil || o.Only[i] }
+func (o *Opts) Want(i int) bool {
+	if o.ShardN > 1 && i%o.ShardN != o.ShardK {
+		return false
+	}
+	return o.Only == nil || o.Only[i]
+}
+
+// TraceBase is the first trace id of this shard (ids must be unique across the shards of a run).
+func (o *Opts) TraceBase() int { return o.ShardK*10_000_000 + 1 }
 
 func (o *Opts) Thorough() bool { return o.Tier == "thorough" }
 
